@@ -2,6 +2,7 @@ package procsim
 
 import (
 	"bytes"
+	"debug/buildinfo"
 	"encoding/json"
 	"errors"
 	"fmt"
@@ -9,6 +10,7 @@ import (
 	"os"
 	"os/exec"
 	"path/filepath"
+	"strconv"
 	"strings"
 	"sync"
 	"sync/atomic"
@@ -31,8 +33,10 @@ const startedToken = "sha256//"
 // ---- per-process environment: the binary and a valid certificate cache ----
 
 type environment struct {
-	bin     string
-	scratch string
+	bin       string
+	scratch   string
+	goVersion string // toolchain the binary was built with
+	reported  bool
 
 	goodOnce sync.Once
 	good     []byte
@@ -66,10 +70,21 @@ func getEnv(job *simkit.Job) (*environment, error) {
 		}
 		bin := filepath.Join(scratch, "curlrevshell")
 		tmp := fmt.Sprintf("%s.%d.tmp", bin, os.Getpid())
-		cmd := exec.Command("go1.26.8", "build", "-o", tmp, ".")
-		cmd.Dir = repoPath()
-		cmd.Env = append(os.Environ(), "GOFLAGS=-mod=mod", "GOPROXY=off", "GOSUMDB=off",
-			"GOTOOLCHAIN=local", "CGO_ENABLED=0")
+		// The shipped binary is what a user of the repository gets: built by
+		// the default toolchain (`go` on PATH, which honours the repository's
+		// go.mod); go1.26.8 only if that is missing or fails.  PROCSIM_GO
+		// forces one (for comparing toolchains).
+		tools := []string{"go", "go1.26.8"}
+		if t := os.Getenv("PROCSIM_GO"); t != "" {
+			tools = []string{t}
+		}
+		var env []string
+		for _, kv := range os.Environ() {
+			if !strings.HasPrefix(kv, "GOROOT=") {
+				env = append(env, kv)
+			}
+		}
+		env = append(env, "GOFLAGS=-mod=mod", "GOPROXY=off", "GOSUMDB=off", "GOTOOLCHAIN=local", "CGO_ENABLED=0")
 		stop := make(chan struct{})
 		go func() {
 			tk := time.NewTicker(2 * time.Second)
@@ -83,17 +98,33 @@ func getEnv(job *simkit.Job) (*environment, error) {
 				}
 			}
 		}()
-		out, err := cmd.CombinedOutput()
+		var fails []string
+		built := false
+		for _, tool := range tools {
+			cmd := exec.Command(tool, "build", "-o", tmp, ".")
+			cmd.Dir = repoPath()
+			cmd.Env = env
+			out, err := cmd.CombinedOutput()
+			if err == nil {
+				built = true
+				break
+			}
+			fails = append(fails, fmt.Sprintf("%s build in %s: %v\n%s", tool, cmd.Dir, err, out))
+		}
 		close(stop)
-		if err != nil {
-			envErr = fmt.Errorf("building the binary in %s: %v\n%s", cmd.Dir, err, out)
+		if !built {
+			envErr = errors.New("building the binary:\n" + strings.Join(fails, "\n"))
 			return
 		}
 		if err := os.Rename(tmp, bin); err != nil {
 			envErr = err
 			return
 		}
-		theEnv = &environment{bin: bin, scratch: scratch}
+		goVersion := "unknown"
+		if bi, err := buildinfo.ReadFile(bin); err == nil {
+			goVersion = bi.GoVersion
+		}
+		theEnv = &environment{bin: bin, scratch: scratch, goVersion: goVersion}
 	})
 	return theEnv, envErr
 }
@@ -216,7 +247,7 @@ func garbage() []byte {
 	return b
 }
 
-func materialise(ev *environment, cs *caseSpec) (*plan, error) {
+func materialise(ev *environment, cs *caseSpec, rep int) (*plan, error) {
 	pl := &plan{tokens: map[string]string{}}
 	pl.dir = filepath.Join(ev.scratch, fmt.Sprintf("c%d_%d", os.Getpid(), caseSeq.Add(1)))
 	for _, d := range []string{"home", "xdg"} {
@@ -308,6 +339,9 @@ func materialise(ev *environment, cs *caseSpec) (*plan, error) {
 				return pl, err
 			}
 			pl.tokens[f.ID] = cache
+		case FCacheUncreatable:
+			cache = UncreatablePath
+			pl.tokens[f.ID] = cache
 		case FCacheDirUnwritable:
 			if err := os.MkdirAll(in("readonly"), 0o500); err != nil {
 				return pl, err
@@ -332,6 +366,22 @@ func materialise(ev *environment, cs *caseSpec) (*plan, error) {
 			pl.tokens[f.ID] = ctrli
 		}
 	}
+	if how := cs.exitHow(); isInsertExit(how) && ctrli == "" {
+		// a Ctrl+I source that takes a while to prepare
+		ctrli = in("funcs")
+		if err := os.MkdirAll(ctrli, 0o755); err != nil {
+			return pl, err
+		}
+		for i := 0; i < insertSweep[rep%len(insertSweep)]; i++ {
+			name, body := fmt.Sprintf("f%03d.sh", i), fmt.Sprintf("# TABDOC: f%03d Say %d\nf%03d() { echo %d; }\n", i, i, i, i)
+			if i%2 == 1 {
+				name, body = fmt.Sprintf("p%03d.pl", i), fmt.Sprintf("#!/usr/bin/env perl\n# TABDOC: p%03d Print %d\nprint \"%d\\n\";\n", i, i, i)
+			}
+			if err := write(filepath.Join(ctrli, name), []byte(body)); err != nil {
+				return pl, err
+			}
+		}
+	}
 	pl.argv = []string{"-listen-address", addr}
 	if passCache {
 		pl.argv = append(pl.argv, "-tls-certificate-cache", cache)
@@ -343,7 +393,7 @@ func materialise(ev *environment, cs *caseSpec) (*plan, error) {
 		pl.argv = append(pl.argv, "-ctrl-i", ctrli)
 	}
 	for _, a := range cs.acts {
-		if a.K == KExit && a.ID == ExitOneShell {
+		if a.K == KExit && isOneShell(a.ID) {
 			pl.oneShell = true
 			pl.argv = append(pl.argv, "-one-shell")
 		}
@@ -366,6 +416,10 @@ func (Engine) Run(t *testing.T, job *simkit.Job, rng *simkit.RNG, idx int64, c *
 			w = 1
 		}
 		n := idx*w + int64(job.Worker)
+		if job.Property == PropertyOneShell {
+			// only the (small) -one-shell family, whole in every worker
+			all, n = enumerateOneShell(), idx
+		}
 		if n < 0 || n >= int64(len(all)) {
 			return &simkit.Outcome{Done: true}
 		}
@@ -400,6 +454,10 @@ func (Engine) Run(t *testing.T, job *simkit.Job, rng *simkit.RNG, idx int64, c *
 		o.HarnessErr = err.Error()
 		return o
 	}
+	if !ev.reported {
+		ev.reported = true
+		o.Probes["binary_built_with_"+ev.goVersion]++
+	}
 	execute(ev, cs, o)
 	return o
 }
@@ -413,16 +471,35 @@ func clipTail(s string, n int) string {
 
 // execute runs the one process of the case and judges it.
 func execute(ev *environment, cs *caseSpec, o *simkit.Outcome) {
+	reps := 1
+	if expect(cs).kind == expNormal && isInsertExit(cs.exitHow()) {
+		reps = len(insertSweep)
+		if n, err := strconv.Atoi(os.Getenv("PROCSIM_INSERT_REPS")); err == nil && n > 0 {
+			reps = n
+		}
+	}
+	for rep := 0; rep < reps && len(o.Violations) == 0 && o.HarnessErr == ""; rep++ {
+		if reps > 1 {
+			o.Trace = append(o.Trace, fmt.Sprintf("process %d of %d: %d files behind -ctrl-i", rep+1, reps, insertSweep[rep%len(insertSweep)]))
+		}
+		executeOnce(ev, cs, o, rep)
+	}
+}
+
+// executeOnce runs one process of the case and judges it.
+func executeOnce(ev *environment, cs *caseSpec, o *simkit.Outcome, rep int) {
 	exp := expect(cs)
 	var app []string
 	for _, f := range exp.applicable {
 		app = append(app, f.ID)
 	}
-	o.Trace = append(o.Trace, fmt.Sprintf("expect: %s (%s) applicable=[%s]", exp.kind, exp.label, strings.Join(app, " ")))
+	if rep == 0 {
+		o.Trace = append(o.Trace, fmt.Sprintf("expect: %s (%s) applicable=[%s]", exp.kind, exp.label, strings.Join(app, " ")))
+	}
 	o.NonTrivial = len(cs.faults()) > 0 || exp.kind == expNormal
 
 	runsBefore := ev.goodRuns
-	pl, err := materialise(ev, cs)
+	pl, err := materialise(ev, cs, rep)
 	defer pl.cleanup()
 	o.Steps += ev.goodRuns - runsBefore
 	if err != nil {
@@ -450,6 +527,7 @@ func execute(ev *environment, cs *caseSpec, o *simkit.Outcome) {
 		started  bool // the start-up finished (one-liners shown)
 		stuck    bool // asked to leave, it never did
 		endedHow string
+		fam      famObs // what a -one-shell scenario saw
 	)
 	if !cs.cfg.TTY || cs.cfg.Info != InfoNone {
 		// it can only exit
@@ -469,7 +547,7 @@ func execute(ev *environment, cs *caseSpec, o *simkit.Outcome) {
 				endedHow = ExitCtrlD
 			}
 			o.Trace = append(o.Trace, "start-up finished; ending it by "+endedHow)
-			herr, gone := endProgram(p, endedHow)
+			herr, gone := endProgram(p, endedHow, &fam)
 			if herr != "" {
 				harness("%s", herr)
 				return
@@ -494,6 +572,7 @@ func execute(ev *environment, cs *caseSpec, o *simkit.Outcome) {
 	if cs.cfg.TTY && cs.cfg.Info == InfoNone && !started {
 		o.Trace = append(o.Trace, "exited before finishing start-up")
 	}
+	o.Trace = append(o.Trace, fam.trace...)
 	switch {
 	case stuck:
 		o.Trace = append(o.Trace, "exit: none by itself (killed by the harness)")
@@ -521,13 +600,15 @@ func execute(ev *environment, cs *caseSpec, o *simkit.Outcome) {
 	}
 
 	// ---- the oracle ----
-	found := func(inv, what, format string, a ...any) {
+	foundP := func(prop, inv, what, format string, a ...any) {
 		o.Violations = append(o.Violations, simkit.Found{
-			Property: Property, Invariant: inv, Signature: exp.label + ": " + what,
+			Property: prop, Invariant: inv, Signature: exp.label + ": " + what,
 			Message: fmt.Sprintf(format, a...) + "\n  " + pl.canonArgv() +
-				fmt.Sprintf("\n  (tty=%v, termios variant %d)\n  output:\n%s", cs.cfg.TTY, cs.cfg.Termios, shown),
+				fmt.Sprintf("\n  (tty=%v, termios variant %d, binary built with %s)\n  output:\n%s",
+					cs.cfg.TTY, cs.cfg.Termios, ev.goVersion, shown),
 		})
 	}
+	found := func(inv, what, format string, a ...any) { foundP(Property, inv, what, format, a...) }
 	crashed := len(marks) > 0 || (sig != 0 && !stuck)
 	// in every case: no crash, terminal mode restored
 	if len(marks) > 0 {
@@ -539,7 +620,7 @@ func execute(ev *environment, cs *caseSpec, o *simkit.Outcome) {
 	} else if sig != 0 && !stuck {
 		found("no-crash-trace", "killed by a signal instead of exiting", "the process was killed by signal %d (%v)", int(sig), sig)
 	}
-	if cs.cfg.TTY && tdiff != "" {
+	if cs.cfg.TTY && tdiff != "" && !stuck { // (killed by the harness, it could not restore anything)
 		found("termios-restored", "terminal not returned to the mode it was found in",
 			"termios after the exit differs from termios before the start: %s", tdiff)
 	}
@@ -586,10 +667,12 @@ func execute(ev *environment, cs *caseSpec, o *simkit.Outcome) {
 				found("starts-normally", "program exited during start-up although nothing was wrong",
 					"no start-up condition was unsatisfiable, yet the program exited (status %d) before finishing start-up", code)
 			}
+		case isOneShell(endedHow):
+			judgeOneShell(o, endedHow, &fam, stuck, crashed, code, low, foundP)
 		case stuck || crashed:
 		default:
 			o.Probes["normal_exit_"+endedHow]++
-			if endedHow == ExitCtrlC {
+			if endedHow == ExitCtrlC || endedHow == ExitInsertCtrlC {
 				o.Probes[fmt.Sprintf("ctrl_c_exit_status_%d", code)]++
 			} else if code != 0 {
 				found("normal-exit-status", "exit status not 0",
@@ -602,9 +685,23 @@ func execute(ev *environment, cs *caseSpec, o *simkit.Outcome) {
 // endProgram makes a normally started program leave, in the way asked for,
 // and waits for it.  herr is harness trouble; gone says the process exited by
 // itself within the cap.
-func endProgram(p *proc, how string) (herr string, gone bool) {
+func endProgram(p *proc, how string, fam *famObs) (herr string, gone bool) {
 	switch how {
 	case ExitCtrlC:
+		if err := p.send([]byte{0x03}); err != nil {
+			return "typing Ctrl+C: " + err.Error(), false
+		}
+		return "", p.waitFor(nil, capSelf) == wExited
+	case ExitInsertCtrlD:
+		// Tab and Ctrl+D arrive together
+		if err := p.send([]byte("\t\x04")); err != nil {
+			return "typing Tab and Ctrl+D: " + err.Error(), false
+		}
+		return "", p.waitFor(nil, capSelf) == wExited
+	case ExitInsertCtrlC:
+		if err := p.send([]byte("\t")); err != nil {
+			return "typing Tab: " + err.Error(), false
+		}
 		if err := p.send([]byte{0x03}); err != nil {
 			return "typing Ctrl+C: " + err.Error(), false
 		}
@@ -615,43 +712,51 @@ func endProgram(p *proc, how string) (herr string, gone bool) {
 		}
 		return "", p.waitFor(nil, capSelf) == wExited
 	}
-	// -one-shell: attach a shell completely, take it away, press Enter
-	m := loopbackAddr.Find(p.output())
-	if m == nil {
-		return "no listen address in the start-up output", false
+	return endOneShell(p, how, fam)
+}
+
+// judgeOneShell is the oracle of the -one-shell family: C12's own invariants,
+// and the exit status also as C20's.  (Crash marks, terminal mode and "exits
+// by itself" are judged for C20 like in every other case.)
+func judgeOneShell(o *simkit.Outcome, how string, fam *famObs, stuck, crashed bool, code int, lowOut string,
+	foundP func(prop, inv, what, format string, a ...any)) {
+	if fam.closedEarly || fam.endedEarly {
+		foundP(PropertyOneShell, "one-shell-listener-open-until-shell", "listener closed (or program ended) before a shell was fully attached",
+			"as long as no shell is fully attached the listener has to stay open: connect refused=%v, program ended=%v",
+			fam.closedEarly, fam.endedEarly)
 	}
-	c, err := attach(string(m))
-	if err != nil {
-		return "connecting the shell: " + err.Error(), false
-	}
-	defer c.close()
-	switch p.waitFor(func(b []byte) bool { return bytes.Contains(b, []byte(outToken)) }, capHarness) {
-	case wExited:
-		return "", true // judged by what it left behind
-	case wTimeout:
-		return "the shell's output never reached the terminal", false
-	}
-	if err := p.send([]byte(inToken + "\r")); err != nil {
-		return "typing a line: " + err.Error(), false
-	}
-	if err := c.awaitInput(inToken, capHarness); err != nil {
-		select {
-		case <-p.exited:
-			return "", true
-		default:
+	if fam.probed {
+		if fam.refused {
+			o.Probes["one_shell_new_connect_refused"]++
+		} else {
+			foundP(PropertyOneShell, "one-shell-listener-closed", "a new connection is still accepted after the shell is fully attached",
+				"%s after the shell was fully attached connects to the listen address still got through", capRefuse)
 		}
-		return err.Error(), false
+	} else {
+		o.Probes["one_shell_exit_in_mid_scenario"]++
 	}
-	c.close()
-	// The line editor notices the end only when a line is finished: press
-	// Enter until the process is gone (the user would).
-	deadline := time.Now().Add(capSelf)
-	for time.Now().Before(deadline) {
-		simkit.Heartbeat.Add(1)
-		_ = p.send([]byte("\r"))
-		if p.waitFor(nil, 100*time.Millisecond) == wExited {
-			return "", true
-		}
+	if fam.stragglerAttached {
+		o.Probes["one_shell_late_request_became_a_shell"]++
 	}
-	return "", false
+	if stuck {
+		foundP(PropertyOneShell, "one-shell-exits-by-itself", "did not exit by itself",
+			"the shell has ended and Enter was pressed every 100 ms for %s: the process was still there", capSelf)
+		return
+	}
+	// the Go runtime's own "fatal error:" is a crash mark as well
+	if crashed || strings.Contains(lowOut, "fatal error") {
+		foundP(PropertyOneShell, "one-shell-no-fatal-error", "fatal error or crash reported instead of a clean end",
+			"the output reports a fatal error / carries crash marks (exit status %d)", code)
+	}
+	if crashed {
+		return
+	}
+	if code != 0 {
+		foundP(PropertyOneShell, "one-shell-exit-status", "exit status not 0",
+			"after the one shell has ended the program must exit with success, got status %d", code)
+		foundP(Property, "normal-exit-status", "exit status not 0",
+			"leaving by %s must give exit status 0, got %d", how, code)
+		return
+	}
+	o.Probes["normal_exit_"+how]++
 }
